@@ -46,6 +46,16 @@ func vCanary() {}
 // vUnreachable marks a point that must not be reachable.
 func vUnreachable() { panic(verifFailure{"unreachable", ""}) }
 
+// vMapAll: f holds for every entry of m (a universal quantifier over the keys present).
+func vMapAll[K comparable, V any](m map[K]V, f func(k K, v V) bool) bool {
+	for k, v := range m {
+		if !f(k, v) {
+			return false
+		}
+	}
+	return true
+}
+
 // vForall is a bounded universal quantifier over lo <= i < hi.
 func vForall(lo, hi int, f func(i int) bool) bool {
 	for i := lo; i < hi; i++ {
